@@ -17,7 +17,8 @@ from harness import pipeline_common as pc
 from harness.pipeline_common import Spec
 
 import cutadapt.modifiers as _modifiers
-from cutadapt.modifiers import QualityTrimmer, NextseqQualityTrimmer, PolyATrimmer, AdapterCutter
+from cutadapt.modifiers import (QualityTrimmer, NextseqQualityTrimmer, PolyATrimmer, AdapterCutter, ReverseComplementer,
+                                PairedReverseComplementer, PairedAdapterCutter)
 from cutadapt.report import Statistics, FILTERS, full_report, minimal_report
 from cutadapt.steps import HasStatistics, HasFilterStatistics, SingleEndSink, PairedEndSink
 from cutadapt.pipeline import SingleEndPipeline, PairedEndPipeline
@@ -442,6 +443,170 @@ def check_modifier_counters(ns: int, qs: int, qe: int, present: bool, x: int, pa
     return OK
 
 
+# ---------------------------------------------------------------------------------- reads with adapters
+# "the ... with-adapter counts equal the sums over the individual reads": a read in which several rounds (--times) find
+# an adapter is ONE read with adapters.  Four places count: AdapterCutter.__call__, ReverseComplementer.__call__,
+# PairedReverseComplementer.__call__ (one counter per mate) and PairedAdapterCutter.__call__.
+class _Probe:
+    """Harness step placed before the sink: remembers the ModificationInfo objects (to read info.matches)."""
+
+    def __init__(self):
+        self.infos = []
+
+    def __call__(self, *args):
+        n = len(args) // 2
+        self.infos.append(args[n:])
+        return args[0] if n == 1 else args[:n]
+
+
+def _rounds(flags, times):
+    """Number of matches of one AdapterCutter pass: one adapter per round, stop at the first round that finds none."""
+    n = 0
+    for k in range(times):
+        if not flags[k]:
+            break
+        n += 1
+    return n
+
+
+def _outcomes(flags, x, score=1):
+    return [("after", x, x, score, 0) if f else None for f in flags]
+
+
+def check_with_adapters(p0: bool, p1: bool, p2: bool, q0: bool, q1: bool, q2: bool, x: int, c_w: int, c_w2: int) -> str:
+    """
+    pre: -1 <= x <= 3
+    pre: c_w >= 0 and c_w2 >= 0
+    post: _ == "ok"
+    """
+    times = _PARAM.get("times", 2)
+    action = _PARAM.get("action", "trim")
+    paired = _PARAM.get("paired", False)
+    flags1, flags2 = [p0, p1, p2][:times], [q0, q1, q2][:times]
+    stub1 = StubAdapter("s1", _outcomes(flags1, x))
+    cutter1 = AdapterCutter([stub1], times=times, action=action, index=False)
+    cutter1.with_adapters = c_w                        # arbitrary pre-state
+    probe = _Probe()
+    log = pc.RecordingOutfiles()
+    r1 = Rec("r", _TEXT1, "I" * len(_TEXT1))
+    if paired:
+        stub2 = StubAdapter("s2", _outcomes(flags2, x))
+        cutter2 = AdapterCutter([stub2], times=times, action=action, index=False)
+        cutter2.with_adapters = c_w2
+        r2 = Rec("r", _TEXT2, "I" * len(_TEXT2))
+        pipeline = PairedEndPipeline([(cutter1, cutter2)], [probe, PairedEndSink(log.open_record_writer("o1", "o2"))])
+        n, bp1, bp2 = pipeline.process_reads(pc.OneChunk([(r1, r2)]))
+    else:
+        pipeline = SingleEndPipeline([cutter1], [probe, SingleEndSink(log.open_record_writer("o1"))])
+        n, bp1, bp2 = pipeline.process_reads(pc.OneChunk([r1]))
+    stats = Statistics().collect(n, bp1, bp2, pipeline._modifiers, pipeline._steps)
+    n1 = _rounds(flags1, times)
+    if len(probe.infos) != 1 or len(probe.infos[0][0].matches) != n1 or len(stub1.calls) != min(times, n1 + 1):
+        return "R1: %d rounds should have found an adapter; info.matches has %d entries after %d searches" % (n1, len(probe.infos[0][0].matches), len(stub1.calls))
+    if len(cutter1.adapter_statistics[stub1].added) != n1:
+        return "R1: %d matches, %d recorded in the adapter statistics" % (n1, len(cutter1.adapter_statistics[stub1].added))
+    if stats.with_adapters[0] != c_w + (1 if n1 > 0 else 0):
+        return "reads with adapters (R1): reported %r after one read with %d matches on top of %r" % (stats.with_adapters[0], n1, c_w)
+    if not paired:
+        return OK if stats.with_adapters[1] is None else "single-end data reports reads with adapters for R2"
+    n2 = _rounds(flags2, times)
+    if len(probe.infos[0][1].matches) != n2 or len(cutter2.adapter_statistics[stub2].added) != n2:
+        return "R2: %d rounds should have found an adapter; info.matches has %d entries" % (n2, len(probe.infos[0][1].matches))
+    if stats.with_adapters[1] != c_w2 + (1 if n2 > 0 else 0):
+        return "reads with adapters (R2): reported %r after one read with %d matches on top of %r" % (stats.with_adapters[1], n2, c_w2)
+    return OK
+
+
+def check_with_adapters_revcomp(f0: bool, f1: bool, r0: bool, r1: bool, sf: int, sr: int, c_w: int, c_rc: int) -> str:
+    """
+    pre: -2 <= sf <= 2 and -2 <= sr <= 2
+    pre: c_w >= 0 and c_rc >= 0
+    post: _ == "ok"
+    """
+    times = 2
+    # the stub answers call after call: first the rounds on the read as given, then the rounds on its reverse complement
+    nf = _rounds([f0, f1], times)
+    calls_f = min(times, nf + 1)
+    outcomes = _outcomes([f0, f1][:calls_f], 1, sf) + _outcomes([r0, r1], 1, sr)
+    stub = StubAdapter("s", outcomes)
+    cutter = AdapterCutter([stub], times=times, action="trim", index=False)
+    cutter.with_adapters = c_w
+    rc = ReverseComplementer(cutter)
+    rc.reverse_complemented = c_rc
+    probe = _Probe()
+    log = pc.RecordingOutfiles()
+    pipeline = SingleEndPipeline([rc], [probe, SingleEndSink(log.open_record_writer("o1"))])
+    n, bp1, bp2 = pipeline.process_reads(pc.OneChunk([Rec("r", _TEXT1, "I" * len(_TEXT1))]))
+    stats = Statistics().collect(n, bp1, bp2, pipeline._modifiers, pipeline._steps)
+    nr = _rounds([r0, r1], times)
+    use_rc = nr > 0 and nr * sr > nf * sf          # C16: the reverse complement only if an adapter was found in it and it scores strictly better
+    kept = nr if use_rc else nf
+    if len(probe.infos[0][0].matches) != kept:
+        return "%d matches should have been kept, info.matches has %d" % (kept, len(probe.infos[0][0].matches))
+    if stats.with_adapters[0] != c_w + (1 if kept > 0 else 0):
+        return "reads with adapters: reported %r after one read with %d matches on top of %r" % (stats.with_adapters[0], kept, c_w)
+    if stats.reverse_complemented != c_rc + (1 if use_rc else 0):
+        return "reverse-complemented reads: reported %r on top of %r" % (stats.reverse_complemented, c_rc)
+    return OK
+
+
+def check_with_adapters_paired_revcomp(a0: bool, a1: bool, b0: bool, b1: bool, c0: bool, d0: bool, su: int, ss: int, c_w: int, c_w2: int) -> str:
+    """
+    pre: -1 <= su <= 1 and -1 <= ss <= 1
+    pre: c_w >= 0 and c_w2 >= 0
+    post: _ == "ok"
+    """
+    # cutter 1 (--times 2) searches R1, then - swapped - R2; cutter 2 (one round) searches R2, then - swapped - R1
+    na = _rounds([a0, a1], 2)
+    stub1 = StubAdapter("s1", _outcomes([a0, a1][:min(2, na + 1)], 1, su) + _outcomes([b0, b1], 1, ss))
+    stub2 = StubAdapter("s2", _outcomes([c0], 1, su) + _outcomes([d0], 1, ss))
+    cutter1 = AdapterCutter([stub1], times=2, action="trim", index=False)
+    cutter2 = AdapterCutter([stub2], times=1, action="trim", index=False)
+    cutter1.with_adapters = c_w
+    cutter2.with_adapters = c_w2
+    probe = _Probe()
+    log = pc.RecordingOutfiles()
+    pipeline = PairedEndPipeline([PairedReverseComplementer(cutter1, cutter2)], [probe, PairedEndSink(log.open_record_writer("o1", "o2"))])
+    n, bp1, bp2 = pipeline.process_reads(pc.OneChunk([(Rec("r", _TEXT1, "III"), Rec("r", _TEXT2, "II"))]))
+    stats = Statistics().collect(n, bp1, bp2, pipeline._modifiers, pipeline._steps)
+    nb = _rounds([b0, b1], 2)
+    nc, nd = (1 if c0 else 0), (1 if d0 else 0)
+    use_rc = (nb + nd > 0) and (nb + nd) * ss > (na + nc) * su
+    k1, k2 = (nb, nd) if use_rc else (na, nc)
+    if len(probe.infos[0][0].matches) != k1 or len(probe.infos[0][1].matches) != k2:
+        return "matches kept: expected %d / %d, info.matches has %d / %d" % (k1, k2, len(probe.infos[0][0].matches), len(probe.infos[0][1].matches))
+    if stats.with_adapters[0] != c_w + (1 if k1 > 0 else 0):
+        return "reads with adapters (R1): reported %r after one pair with %d R1 matches on top of %r" % (stats.with_adapters[0], k1, c_w)
+    if stats.with_adapters[1] != c_w2 + (1 if k2 > 0 else 0):
+        return "reads with adapters (R2): reported %r after one pair with %d R2 matches on top of %r" % (stats.with_adapters[1], k2, c_w2)
+    return OK
+
+
+def check_with_adapters_pair_adapters(pa1: bool, pa2: bool, pb1: bool, pb2: bool, sa: int, sb: int, c_w: int) -> str:
+    """
+    pre: -1 <= sa <= 1 and -1 <= sb <= 1
+    pre: c_w >= 0
+    post: _ == "ok"
+    """
+    # --pair-adapters with two adapter pairs: a pair counts when both of its adapters are found; the read pair counts once
+    a1, a2 = StubAdapter("a1", _outcomes([pa1], 1, sa)), StubAdapter("a2", _outcomes([pa2], 1, 0))
+    b1, b2 = StubAdapter("b1", _outcomes([pb1], 1, sb)), StubAdapter("b2", _outcomes([pb2], 1, 0))
+    cutter = PairedAdapterCutter([a1, b1], [a2, b2], action=_PARAM.get("action", "trim"))
+    cutter.with_adapters = c_w
+    probe = _Probe()
+    log = pc.RecordingOutfiles()
+    pipeline = PairedEndPipeline([cutter], [probe, PairedEndSink(log.open_record_writer("o1", "o2"))])
+    n, bp1, bp2 = pipeline.process_reads(pc.OneChunk([(Rec("r", _TEXT1, "III"), Rec("r", _TEXT2, "II"))]))
+    stats = Statistics().collect(n, bp1, bp2, pipeline._modifiers, pipeline._steps)
+    found = (pa1 and pa2) or (pb1 and pb2)
+    want = c_w + (1 if found else 0)
+    if len(probe.infos[0][0].matches) != (1 if found else 0) or len(probe.infos[0][1].matches) != (1 if found else 0):
+        return "info.matches of a pair in which %s adapter pair was found has %d / %d entries" % ("an" if found else "no", len(probe.infos[0][0].matches), len(probe.infos[0][1].matches))
+    if stats.with_adapters[0] != want or stats.with_adapters[1] != want:
+        return "pairs with adapters: reported %r / %r, expected %r for both mates" % (stats.with_adapters[0], stats.with_adapters[1], want)
+    return OK
+
+
 # ---------------------------------------------------------------------------------- catalogue
 def _catalogue():
     S = []
@@ -462,7 +627,7 @@ def _catalogue():
     add(Spec(adapters="1", m="2", casava=True, last="untrimmed_output", aux=True))
     for last in (None, "discard_untrimmed", "untrimmed_output"):
         add(Spec(adapters="1", out="demux", last=last, m="2", ts_out=(last is None), max_n=1.0))
-    # single-end with --max-average-error-rate (genuine defect expected: category missing from report.FILTERS)
+    # single-end with --max-average-error-rate (the category was missing from report.FILTERS; repaired in /repo by a fix: commit)
     add(Spec(max_aer=0.5))
     add(Spec(adapters="1", m="1", M="3", max_n=1.0, max_ee=1.0, max_aer=0.5, casava=True, last="discard_untrimmed"))
     # paired-end
@@ -487,9 +652,9 @@ def _catalogue():
     add(Spec(paired=True, adapters="12", out="combinatorial", m="2", max_n=1.0))
     add(Spec(paired=True, adapters="12", out="combinatorial"))
     add(Spec(paired=True, adapters="1", m="2", last="discard_untrimmed", aux=True))
-    # paired-end with --max-average-error-rate (genuine defect expected)
+    # paired-end with --max-average-error-rate
     add(Spec(paired=True, max_aer=0.5, m="1"))
-    # combinatorial demultiplexing with --discard-untrimmed (genuine defect expected: pairs dropped uncounted)
+    # combinatorial demultiplexing with --discard-untrimmed (pairs were dropped uncounted; repaired in /repo by a fix: commit)
     add(Spec(paired=True, adapters="12", out="combinatorial", last="discard_untrimmed"))
     add(Spec(paired=True, adapters="12", out="combinatorial", last="discard_untrimmed", m="2", ts_out=True))
     return S
@@ -512,6 +677,14 @@ for _paired in (False, True):
                            "param": {"paired": _paired, "mods": _mods, "action": "trim"}, "timeout": 900})
 CONDITIONS.append({"name": "modifier_counters/single/adapter+polya/action=none", "fn": "check_modifier_counters",
                    "param": {"paired": False, "mods": ("adapter", "polya"), "action": None}, "timeout": 900})
+for _paired in (False, True):
+    for _times, _action in ((2, "trim"), (3, "trim"), (2, "mask"), (2, None)):
+        CONDITIONS.append({"name": "with_adapters/%s/times=%d/action=%s" % ("paired" if _paired else "single", _times, _action), "fn": "check_with_adapters",
+                           "param": {"paired": _paired, "times": _times, "action": _action}, "timeout": 600})
+CONDITIONS.append({"name": "with_adapters/revcomp/times=2", "fn": "check_with_adapters_revcomp", "timeout": 600})
+CONDITIONS.append({"name": "with_adapters/paired_revcomp/times=2+1", "fn": "check_with_adapters_paired_revcomp", "timeout": 900})
+for _action in ("trim", None):
+    CONDITIONS.append({"name": "with_adapters/pair_adapters/action=%s" % _action, "fn": "check_with_adapters_pair_adapters", "param": {"action": _action}, "timeout": 600})
 
 
 def describe():
@@ -520,10 +693,13 @@ def describe():
                       "CombinatorialDemultiplexer.__call__/filtered/get_statistics/descriptive_identifier", "statistics.py:ReadLengthStatistics",
                       "pipeline.py:SingleEndPipeline.process_reads, PairedEndPipeline.process_reads", "report.py:Statistics.collect/_collect_step/_collect_modifier/as_json, "
                       "FILTERS, full_report/format_filter_report, minimal_report", "modifiers.py:QualityTrimmer/NextseqQualityTrimmer/PolyATrimmer/AdapterCutter.__call__ (counters), "
-                      "PairedEndModifierWrapper"],
+                      "PairedEndModifierWrapper, ReverseComplementer.__call__, PairedReverseComplementer.__call__, PairedAdapterCutter.__call__ (with_adapters)"],
         "bounds": {"option_sets": len(OPTION_SETS), "read": "text from a fixed table (length 0..3, N count 0..length), header from a table of 5 names, expected errors from {0, 1, 1.5, 2.5}, "
                    "adapter found / not found per mate, which adapter name (demultiplexing)", "pre-state": "every filter counter and every written-length histogram cell an arbitrary int in 0..10^6",
                    "reports": "three concrete batches per option set covering every row of every feature table, through full_report, minimal_report and as_json",
+                   "reads with adapters": "real AdapterCutter with --times 2 and 3 over stub adapters with a symbolic found/not found flag per round (0..3 matches on one read), single-end and "
+                   "through PairedEndModifierWrapper; ReverseComplementer (times 2, symbolic scores -2..2), PairedReverseComplementer (times 2 + 1, scores -1..1), PairedAdapterCutter with two "
+                   "adapter pairs; symbolic pre-state of every with_adapters / reverse_complemented counter",
                    "modifier counters": "3-base R1 / 2-base R2, kernel answers symbolic (-1..4, clamped by the stubs into their contracts), two kinds of modifiers per condition, counters with arbitrary pre-state"},
         "outside_bounds": ["reads longer than 3", "more than one chunk / more than one core (C06)", "--rename, --revcomp (C16) and the per-adapter statistics (C20)",
                            "which filter is the right one for a read (C11), which demultiplexed file is the right one (C15)"],
